@@ -417,7 +417,7 @@ class Session:
 
         self.reset()
         try:
-            m = Message.unpack(2, body, self.neg)
+            m = Message.unpack(2, memoryview(bytearray(body)), self.neg)  # writable, as the receive buffer of the real reader is
         except Notify as e:
             return {'out': _notify_str(e)}
         except Exception as e:  # noqa: BLE001
